@@ -6,7 +6,6 @@ NA = {
  "C01": "Extensional correctness of an individualisation-refinement search with two pruning heuristics; depends on group-theoretic invariants of runtime partitions/certificates. No clause has a structural form that is a necessary condition and would not also fire on behaviour-preserving edits (DESIGN.md §2 C01). Static analysis gives no verdict.",
  "C02": "Exactness of orbits/generators is a value-level property of the same search; the only structural candidate (Reset re-initialises every field) is not a necessary condition (age returns to 0 by itself). See DESIGN.md §2 C02.",
  "C03": "Set equality of the yielded graphs with the isomorphism classes is a property of orbit computation and canonical deletion on runtime graphs; the sharding clause is arithmetic on runtime indices. See DESIGN.md §2 C03.",
- "C10": "All clauses are values of graph algorithms (BFS distances, blocks, cycle counts) on runtime graphs; candidate structural rules were inferred-majority rules with legitimate minorities. See DESIGN.md §2 C10.",
  "C11": "Unreachability of the two panics and correctness of the planarity verdict rest on the DMP invariant (every fragment has an admissible face), a semantic invariant of runtime face/fragment sets out of reach of the prover. See DESIGN.md §2 C11.",
 }
 
@@ -41,6 +40,9 @@ CLAIMS = {
  "C04": dict(design="§2 C04", technique="exhaustive field classification + SSA data-flow (transfer) matching Save<->Load + gob type walk + E-EFF purity + E-EFF package-level-state rule for the search package (GLOBAL)",
    text="Structural half of resumability, for every save point: each GraphIterator/searchGraph field is classified (an unclassified field fails), every saved field flows iterator->record in Save and record->iterator in Load (graph restored field by field), cache fields are only ever nil after Load, every record field is exported and gob-encodable, Save writes nothing reachable from the iterator, the loaded iterator does not keep the reader, and no function of the search package writes or hands out package-level state (nothing can be shared between iterators, or between a record and its iterator, behind the caller's back). Does not decide equality of the resumed sequence.",
    note="encoding/gob round-trips exported fields; the scratch/cache classification table is trusted beyond its one-line reasons."),
+ "C10": dict(design="§2 C10", technique="E-EFF read-only graph argument; E-PROVE capacity obligation on constant-length allocations under the vertex contract (MAKECAP); dominance/E-EFF rule that returned components passed through sort.Ints and were not written since (SORTED)",
+   text="Narrow structural necessary conditions of 'the invariants equal their definitions for every graph': none of the eleven functions writes the graph it is given; an allocation with a constant non-zero length and a capacity written in terms of the order of the argument graph is within its capacity for every graph and vertex accepted (the function returns at all: ConnectedComponent on the one-vertex graph did not); the component ConnectedComponent returns and every component ConnectedComponents appends is sorted by a sort.Ints that nothing overwrites. Distances, blocks, articulation vertices, cycle counts and relabelling invariance are not decided.",
+   note="Graph.N() is non-negative and stable on an unmodified graph; a vertex argument is a vertex of the graph."),
  "C12": dict(design="§2 C12", technique="CFG path rules on go/ssa (no write before error return; cut-set of order-check edges) + E-PROVE lifted precondition at call sites + E-EFF purity / who-writes + typed SSA rule against rune-wise iteration (BYTEWISE)",
    text="Decides: a rejected Add leaves the builder untouched (no receiver write on any path to an error return), the order check cannot be bypassed and admits neither duplicates nor smaller words (cut-set over bytes.Compare edge values), replaceOrRegister is never called on a childless node (precondition len(links)>=1 proved at all call sites), queries never write the automaton, and no function of the package walks a word rune-wise (range over a string, rune conversions), which would change labels >= 0x80. Does not decide accepted language, minimality or ranks.",
    note="bytes.Compare in {-1,0,1}; E-EFF may-write summaries; lazy Initialise is the one named exception."),
